@@ -273,7 +273,7 @@ var (
 
 		Time.RFC1123,
 	}
-	matchDateTimeZone = regexp.MustCompile(`^(.*\d)(?:(Z)|([\+\-]\d{2}):(\d{2}))$`)
+	matchDateTimeZone = regexp.MustCompile(`^(.*\d)(?:(Z)|([\+\-]\d{2}):([0-5]\d))$`)
 )
 
 // dateParse returns the epoch of the parsed date.
